@@ -36,3 +36,14 @@ package datasource
 //@ struct InlineConfig
 //@ props C17 C08
 //@ tag Data validate required
+
+// An inline/string source hands out the one reader it holds, so that a provider can rewind it for another pass.
+//@ func (s stringSource) OpenSource
+//@ props C08
+//@ modifies nothing
+//@ ensures [the-seekable-source-itself] err == nil && rc == box(s)
+
+//@ func NewString
+//@ props C08
+//@ ensures typeis(result, *stringSource) && result.(*stringSource).Reader == result_of(strings.NewReader, 0)
+//@ at call strings.NewReader assert arg(a0) == s0
